@@ -500,6 +500,8 @@ theorem step_mmap2_goodT {s : St} (hinv : InvA s) (pid tid addr len pgoff : Nat)
   clear_value sA
   split
   · exact gA
+  split
+  · exact gA
   · generalize hgb : getByPid sA pid = r1
     obtain ⟨s1, p1⟩ := r1
     dsimp only
